@@ -99,7 +99,7 @@ fn judge(prop: &str, spec: &PipeSpec, w: &crate::gen::genome::Workload, run: pip
         Outcome::MaxSteps(m) => {
             r.count("step_budget_exhausted", 1);
             if prop == "C05" {
-                viol = Some(("no-progress".into(), m.clone()));
+                viol = Some(("no-progress".into(), stuck_state(&run.world.events, m)));
             }
         }
         Outcome::Panic(m) => {
